@@ -25,18 +25,18 @@ static void assert_hook(const char *file, int line, const char *msg) { throw ass
 // ------------------------------------------------------------- arguments ---
 struct AnyArg {
     enum T { I8, U8, I16, U16, I32, U32, I64, U64, CHAR, WCHAR, C16, C32, C8, BOOL, NULLSTR,
-             S_CSTR, S_ST, S_STD, S_VIEW, S_C8Z, S_U8STD, S_U16Z, S_U32Z, S_WZ, S_U16STD, S_WSTD } t = I32;
+             S_CSTR, S_ST, S_STD, S_VIEW, S_C8Z, S_U8STD, S_U16Z, S_U32Z, S_WZ, S_U16STD, S_WSTD, S_NESTED } t = I32;
     long long sv = 0; unsigned long long uv = 0; Bytes b;
     std::u16string b16; std::u32string b32; std::wstring bw;
 };
 static const char *type_name(const AnyArg &a) {
     static const char *n[] = {"i8", "u8", "i16", "u16", "i32", "u32", "i64", "u64", "char", "wchar", "c16", "c32", "c8", "bool", "nullstr",
-                              "str", "str", "str", "str", "str", "str", "str", "str", "str", "str", "str"};
+                              "str", "str", "str", "str", "str", "str", "str", "str", "str", "str", "str", "str"};
     return n[a.t];
 }
 static const char *form_name(const AnyArg &a) {
     static const char *n[] = {"", "", "", "", "", "", "", "", "", "", "", "", "", "", "",
-                              "cstr", "ST::string", "std::string", "string_view", "c8z", "u8string", "u16z", "u32z", "wz", "u16string", "wstring"};
+                              "cstr", "ST::string", "std::string", "string_view", "c8z", "u8string", "u16z", "u32z", "wz", "u16string", "wstring", "nested"};
     return n[a.t];
 }
 // found by argument-dependent lookup from ST::make_formatter_ref: dispatches to the library's own formatter of the static type
@@ -68,6 +68,10 @@ void format_type(const ST::format_spec &f, ST::format_writer &o, const AnyArg &a
     case AnyArg::S_WZ: ST::format_type(f, o, a.bw.c_str()); break;
     case AnyArg::S_U16STD: ST::format_type(f, o, a.b16); break;
     case AnyArg::S_WSTD: ST::format_type(f, o, a.bw); break;
+    // a user-defined formatter that itself formats (re-entrant use of the library while an outer call is running)
+    case AnyArg::S_NESTED: { string inner = ST::format(ST::assume_valid, "{}{}", std::string_view(a.b).substr(0, a.b.size() / 2), std::string_view(a.b).substr(a.b.size() / 2));
+                             string twice = ST::format_latin_1("{}", 7); (void)twice;
+                             ST::format_type(f, o, inner); break; }
     }
 }
 
@@ -454,6 +458,12 @@ static void gen_numfields() {
     for (int k : {30, 39, 40, 41, 63, 64, 65, 78, 79, 80, 81, 100, 200}) for (const char *fl : {"<", "+", "#", "_*"}) for (const char *end : {"}", "!}", "", "\xC3}"}) {
         Bytes f = "{"; for (int i = 0; i < k; ++i) f += fl; f += end; op_fmt(f, L[1]); op_fmt("ab" + f + "c", L[3]);
     }
+    // literal stretches with escaped braces: every split of 58..70 bytes around two escapes (gathering buffers)
+    for (int n1 = 0; n1 <= 70; ++n1) for (int n2 : {0, 1, 62 - n1, 63 - n1, 64 - n1, 65 - n1, 127 - n1, 128 - n1}) {
+        if (n2 < 0) continue;
+        Bytes f = Bytes((size_t)n1, 'x') + "{{" + Bytes((size_t)n2, 'y') + "}}";
+        op_fmt(f + "z{}", L[1]); op_fmt(f + "{{{{", L[0]);
+    }
     // a long padding run arriving when the output buffer already holds text, at widths around its capacities
     for (const char *w : {"246", "247", "255", "256", "257", "502", "510", "511", "512", "513", "1014", "1023", "1025"})
         for (const char *pr : {"", "0123456789"}) for (size_t k = 1; k <= 2; ++k) op_fmt(Bytes(pr) + "{" + w + "}z", L[k]);
@@ -548,11 +558,18 @@ static void gen_int_layouts() {
         Bytes s = "["; s += "{"; s += al; s += pd; if (w) s += std::to_string(w); if (p >= 0) { s += '.'; s += std::to_string(p); } s += "}]";
         op_fmt(s, {mk_str(form, sc)});
     }
+    // an argument whose own formatter calls ST::format while the outer call is running
+    for (const char *lit : {"", "release ", "0123456789012345678901234567890123456789"}) for (int len : {0, 1, 4, 20, 300}) for (const char *sp : {"{}", "{>8}", "{.3}"}) {
+        std::vector<uint32_t> sc; for (int i = 0; i < len; ++i) sc.push_back(i % 7 == 3 ? 0xE9 : 'a' + i % 26);
+        AnyArg n = mk_str(AnyArg::S_NESTED, sc);
+        op_fmt(Bytes(lit) + sp + " ready", {n}); op_fmt(Bytes(lit) + sp + "|{}|" + sp, {n, mk_int(AnyArg::I32, -5, 0)});
+    }
     for (int b = 0; b < 2; ++b) for (const char *s : {"{}", "{6}", "{>6}", "{_.<7}", "{.2}", "{.0}", "{x}", "{c}"}) op_fmt(s, {mk_int(AnyArg::BOOL, 0, b)});
     // code points through the character class
     for (long long cp : {0x41LL, 0x7FLL, 0x80LL, 0xE9LL, 0x7FFLL, 0x800LL, 0x20ACLL, 0xD7FFLL, 0xD800LL, 0xDFFFLL, 0xE000LL, 0xFFFFLL, 0x10000LL, 0x1F600LL, 0x10FFFFLL, 0x110000LL, -1LL, 0x100000041LL, -0xFFFFFFBFLL})
         for (AnyArg::T t : {AnyArg::I32, AnyArg::U32, AnyArg::I64, AnyArg::U64, AnyArg::C32, AnyArg::WCHAR, AnyArg::C16, AnyArg::I16, AnyArg::CHAR})
-            op_fmt("<{c}>", {mk_int(t, cp, (unsigned long long)cp, 1)});
+            { op_fmt("<{c}>", {mk_int(t, cp, (unsigned long long)cp, 1)});
+              if (t == AnyArg::I32 || t == AnyArg::C32 || t == AnyArg::U64) for (const char *pc : {"<{.0c}>", "<{.1c}>", "<{.2c}>", "<{.3c}>", "<{.9c}>", "<{+c}>", "<{#c}>"}) op_fmt(pc, {mk_int(t, cp, (unsigned long long)cp, 1)}); }
     // chunk boundaries inside a multi-byte character (sinks that transcode chunk by chunk)
     op_fmt("{1_\xC3}\xA9", {mk_str(AnyArg::S_CSTR, {})});
     op_fmt("\xC3{}\xA9", {mk_str(AnyArg::S_ST, {})});
